@@ -40,6 +40,7 @@ type Oblig struct {
 }
 
 type edge struct {
+	vars  map[string]ssa.Value
 	from  *ssa.BasicBlock
 	st    *State
 	phis  []*Val // snapshot of the target's phi operands for this edge
@@ -83,7 +84,10 @@ type gen struct {
 	sweep   bool // thin mode: only safety obligations, no frame/post
 	curInstr ssa.Instruction
 	debugVars map[*ssa.BasicBlock]map[string]ssa.Value
-	varAt   map[string]ssa.Value // latest DebugRef binding while executing (per name)
+	varAt   map[string]ssa.Value // DebugRef bindings visible in the current block (dominator-correct)
+	varAtBlock map[*ssa.BasicBlock]map[string]ssa.Value
+	lastCall map[string]*Val // result of the latest call per callee short name (dominator-correct)
+	lastCallBlock map[*ssa.BasicBlock]map[string]*Val
 	retStates []*retPoint
 	cutPhi map[*ssa.Phi]*Val
 	closures map[int]*closureInfo
@@ -100,10 +104,12 @@ type gen struct {
 	localRefs map[int]bool
 	privCells []privCell
 	globalsSeen map[int]bool
+	boxed map[int]*Val
 	unsupported int
 }
 
 type retPoint struct {
+	vars    map[string]ssa.Value
 	st      *State
 	results []*Val
 	pos     token.Pos
@@ -309,6 +315,9 @@ func (g *gen) store(st *State, p *Val, t types.Type, v *Val) {
 		}
 		k := g.leafKeyL(p.Addr, l)
 		g.recordWrite(k, l.Sort())
+		if !g.localRefs[p.L[0].id] {
+			g.checkStoreGuards(st, k)
+		}
 		hv := st.heap.Get(k, l.Sort(), SInt)
 		var idx *Term
 		if p.Addr.Elem {
@@ -340,6 +349,37 @@ func (g *gen) havocAll(st *State, hint string) {
 	}
 }
 
+// freeVarReadOnly: the closure only loads through this captured address.
+func freeVarReadOnly(fv *ssa.FreeVar, depth int) bool {
+	if depth > 3 {
+		return false
+	}
+	refs := fv.Referrers()
+	if refs == nil {
+		return true
+	}
+	for _, r := range *refs {
+		switch u := r.(type) {
+		case *ssa.UnOp, *ssa.DebugRef:
+		case *ssa.Store:
+			return false
+		case *ssa.MakeClosure:
+			fn, _ := u.Fn.(*ssa.Function)
+			if fn == nil {
+				return false
+			}
+			for i, b := range u.Bindings {
+				if b == ssa.Value(fv) && i < len(fn.FreeVars) && !freeVarReadOnly(fn.FreeVars[i], depth+1) {
+					return false
+				}
+			}
+		default:
+			return false
+		}
+	}
+	return true
+}
+
 type privCell struct {
 	ref *Term
 	t   types.Type
@@ -366,15 +406,29 @@ func isPrivateCell(x *ssa.Alloc) bool {
 		case *ssa.UnOp:
 		case *ssa.DebugRef:
 		case *ssa.MakeClosure:
-			cr := u.Referrers()
-			if cr == nil {
+			// which free variable(s) of the closure is this cell bound to?
+			fn, _ := u.Fn.(*ssa.Function)
+			if fn == nil {
 				return false
 			}
-			for _, cu := range *cr {
-				switch cu.(type) {
-				case *ssa.Go, *ssa.DebugRef:
-				default:
-					return false
+			goOnly := true
+			if cr := u.Referrers(); cr != nil {
+				for _, cu := range *cr {
+					switch cu.(type) {
+					case *ssa.Go, *ssa.DebugRef:
+					default:
+						goOnly = false
+					}
+				}
+			}
+			if goOnly {
+				continue // runs concurrently: no interleaving semantics
+			}
+			for i, b := range u.Bindings {
+				if b == ssa.Value(x) && i < len(fn.FreeVars) {
+					if !freeVarReadOnly(fn.FreeVars[i], 0) {
+						return false
+					}
 				}
 			}
 		default:
@@ -637,7 +691,7 @@ func (g *gen) addEdge(from, to *ssa.BasicBlock, st *State) {
 	if st.reach.IsFalse() {
 		return
 	}
-	e := &edge{from: from, st: &State{reach: st.reach, heap: st.heap, wm: st.wm}}
+	e := &edge{from: from, vars: g.varAt, st: &State{reach: st.reach, heap: st.heap, wm: st.wm}}
 	// snapshot phi operands
 	pi := -1
 	for i, p := range to.Preds {
@@ -719,6 +773,17 @@ func (g *gen) run() {
 		g.params[p.Name()] = v
 		g.assumeGlobal(rangeFacts(v))
 		g.assumeGlobal(Le(v.L[0], st.wm))
+		if pt, ok := p.Type().Underlying().(*types.Pointer); ok {
+			// captured variables are bound by the address of their cell; the
+			// cell is only reachable from the creating function and its
+			// closures, so calls to other functions leave it alone
+			g.assumeGlobal(Lt(Int(0), v.L[0]))
+			switch pt.Elem().Underlying().(type) {
+			case *types.Struct, *types.Array:
+			default:
+				g.privCells = append(g.privCells, privCell{ref: v.L[0], t: pt.Elem()})
+			}
+		}
 	}
 	g.entry = &State{reach: True, heap: st.heap, wm: st.wm}
 	// preconditions
@@ -727,6 +792,11 @@ func (g *gen) run() {
 	g.execBlocks(g.blocksInOrder(nil), nil)
 	if !g.sweep {
 		g.checkPosts()
+	} else {
+		for _, rp := range g.retStates {
+			g.curInstr = nil
+			g.checkLocks(rp.st)
+		}
 	}
 }
 
@@ -941,6 +1011,10 @@ func (g *gen) cutLoop(li *loopInfo, spec *LoopSpec) {
 		g.set(p, init[i])
 	}
 	g.curInstr = nil
+	if len(entryEdges) > 0 && entryEdges[0].vars != nil {
+		g.varAt = entryEdges[0].vars
+	}
+	entryVars := g.varAt
 	if spec != nil {
 		env := g.specEnv(st0, g.entry)
 		g.bindLoopVars(env, li, phis)
@@ -1012,6 +1086,7 @@ func (g *gen) cutLoop(li *loopInfo, spec *LoopSpec) {
 	}
 	// ---- assume invariants
 	var env *SpecEnv
+	g.varAt = entryVars
 	if spec != nil {
 		env = g.specEnv(st, g.entry)
 		g.bindLoopVars(env, li, phis)
@@ -1038,6 +1113,9 @@ func (g *gen) cutLoop(li *loopInfo, spec *LoopSpec) {
 		g.curInstr = nil
 		for i, p := range phis {
 			g.set(p, e.phis[i])
+		}
+		if e.vars != nil {
+			g.varAt = e.vars
 		}
 		if spec != nil {
 			env2 := g.specEnv(e.st, g.entry)
